@@ -494,6 +494,11 @@ type RunOpts struct {
 	// IdleLimit bounds how far simulated time is advanced when nothing is
 	// runnable before the state is declared a deadlock (default 3h).
 	IdleLimit time.Duration
+	// IdleStepMax > 0 caps the escalating idle step: a task that sleeps d
+	// resumes at most IdleStepMax after d (default: the step grows fourfold
+	// up to 20 minutes, which suits timeouts but not histories that place
+	// requests around a deadline).
+	IdleStepMax time.Duration
 }
 
 type readyTask struct {
@@ -581,6 +586,9 @@ func (s *Sim) Run(o RunOpts) (StopReason, error) {
 			idle += idleStep
 			if idleStep < 20*time.Minute {
 				idleStep *= 4
+			}
+			if o.IdleStepMax > 0 && idleStep > o.IdleStepMax {
+				idleStep = o.IdleStepMax
 			}
 			continue
 		}
